@@ -11,6 +11,7 @@ pub mod c12;
 pub mod c14;
 pub mod c15;
 pub mod c16;
+pub mod c17;
 pub mod c18;
 pub mod c19;
 pub mod c20;
@@ -27,6 +28,7 @@ pub fn dispatch(ctx: &Ctx) -> Option<Outcome> {
         "C12" => c12::run(ctx),
         "C15" => c15::run(ctx),
         "C16" => c16::run(ctx),
+        "C17" => c17::run(ctx),
         "C18" => c18::run(ctx),
         "C19" => c19::run(ctx),
         "C20" => c20::run(ctx),
@@ -40,6 +42,7 @@ pub fn worker_main(args: &[String]) -> i32 {
     match args.first().map(|s| s.as_str()) {
         Some("c06") => c06::worker(&args[1..]),
         Some("c06kill") => c06::worker_kill(&args[1..]),
+        Some("c17") => c17::worker(&args[1..]),
         _ => 64,
     }
 }
